@@ -6,9 +6,13 @@ pub mod c02;
 pub mod c03;
 pub mod c04;
 pub mod c05;
+pub mod c11;
+pub mod c12;
+pub mod c13;
+pub mod c14;
 pub mod c15;
 pub mod c16;
 
 pub fn all() -> Vec<PropertyDef> {
-    vec![c02::def(), c03::def(), c04::def(), c05::def(), c15::def(), c16::def()]
+    vec![c02::def(), c03::def(), c04::def(), c05::def(), c11::def(), c12::def(), c13::def(), c14::def(), c15::def(), c16::def()]
 }
